@@ -20,6 +20,12 @@ func (t TDist) CDF(x float64) float64 {
 	if x == 0 {
 		return 0.5
 	} else if x > 0 {
+		if x2 := x * x; x2 < t.V {
+			// For x*x << V the argument V/(V+x*x) rounds to a value
+			// near 1 and loses all information about x; use the
+			// complementary form I_z(a, b) = 1 - I_{1-z}(b, a).
+			return 0.5 + 0.5*mathBetaInc(x2/(t.V+x2), 0.5, t.V/2)
+		}
 		return 1 - 0.5*mathBetaInc(t.V/(t.V+x*x), t.V/2, 0.5)
 	} else if x < 0 {
 		return 1 - t.CDF(-x)
